@@ -274,6 +274,31 @@ func ctxOrigins(v ssa.Value, seen map[ssa.Value]bool) []ssa.Value {
 	}
 	seen[v] = true
 	switch x := v.(type) {
+	case *ssa.Parameter:
+		// a context handed to an unexported helper / a function literal with parameters: where its callers got it from
+		fn := x.Parent()
+		if fn == nil || (fn.Parent() == nil && token.IsExported(fn.Name())) {
+			return []ssa.Value{v}
+		}
+		idx := -1
+		for i, p := range fn.Params {
+			if p == x {
+				idx = i
+			}
+		}
+		sites := callCommonsOf(curCtx, fn)
+		if idx < 0 || len(sites) == 0 {
+			return []ssa.Value{v}
+		}
+		var out []ssa.Value
+		for _, cc := range sites {
+			if idx < len(cc.Args) {
+				out = append(out, ctxOrigins(cc.Args[idx], seen)...)
+			} else {
+				out = append(out, v)
+			}
+		}
+		return out
 	case *ssa.ChangeInterface:
 		return ctxOrigins(x.X, seen)
 	case *ssa.MakeInterface:
